@@ -787,6 +787,20 @@ impl TcpConnecter {
       }
       attempt_count += 1;
 
+      // A ContextTerminating published before this actor subscribed to the bus is never seen by
+      // try_recv(): consult the context's flag as well, or the connecter dials on after term().
+      if self
+        .context
+        .inner()
+        .shutdown_initiated
+        .load(std::sync::atomic::Ordering::Acquire)
+      {
+        last_connect_attempt_error = Some(ZmqError::Internal(
+          "Shutdown by ContextTerminating (context already shutting down).".into(),
+        ));
+        break 'connecter_life_loop;
+      }
+
       match system_event_rx.try_recv() {
         Ok(SystemEvent::ContextTerminating) => {
           last_connect_attempt_error = Some(ZmqError::Internal(
